@@ -21,6 +21,7 @@ CLAUSES_BEYOND = {"ObsMeanUnits", "ObsCounts"}                         # accesso
 MC_CFG = """SPECIFICATION Spec
 CONSTANTS Variant = "{variant}"
  Computed = {computed}
+ Emit = {emit}
 {props}
 """
 GOOD = "INVARIANT TypeOK\nINVARIANT Fresh\nPROPERTY Invalidated\nPROPERTY LazyTotal\n"
@@ -28,16 +29,16 @@ GOOD = "INVARIANT TypeOK\nINVARIANT Fresh\nPROPERTY Invalidated\nPROPERTY LazyTo
 
 def l1(rep, quick):
     for computed in (("FALSE",) if quick else ("FALSE", "TRUE")):
-        res = tlc.run("MC_AlignObj", MC_CFG.format(variant="code", computed=computed, props=GOOD),
+        res = tlc.run("MC_AlignObj", MC_CFG.format(variant="code", computed=computed, props=GOOD, emit="FALSE"),
                       label=f"MC_AlignObj computed={computed}", workers=16, timeout=1500)
         if res.violated:
             raise MachineryError(f"MC_AlignObj: spec violates {res.violated}\n{res.trace_text[:2000]}")
-        tlc.require(res, actions=["Compute", "ReadTot", "ReadUd", "SetUd", "SetTuple", "UCompute"])
+        tlc.require(res, actions=["DoCompute", "DoReadTot", "DoReadUd", "DoSetUd", "DoSetTuple", "DoUCompute"])
         rep.add_tlc(res)
     for variant, props, expect in (("total_kept_when_set", "INVARIANT Fresh\n", "Fresh"),
                                    ("setter_keeps_value", "PROPERTY Invalidated\n", "Invalidated"),
                                    ("code", "INVARIANT NoStaleTotal\n", "NoStaleTotal")):
-        r = tlc.run("MC_AlignObj", MC_CFG.format(variant=variant, computed="FALSE", props=props), label=f"AlignObj mutant {variant}",
+        r = tlc.run("MC_AlignObj", MC_CFG.format(variant=variant, computed="FALSE", props=props, emit="FALSE"), label=f"AlignObj mutant {variant}",
                     workers=8, timeout=600, coverage=False)
         if not any(expect in str(v) for v in r.violated):
             raise MachineryError(f"AlignObj: {variant} should violate {expect}: {r.violated} {r.errors}")
@@ -201,8 +202,116 @@ def judge(recs, label):
     return res, verdicts
 
 
+J0 = {"n": 2, "sizes": [2, 1], "Ds": [[[[], [[1], [3]]], [[], []]], [[[], [[2], [0]]], [[], []]]], "des": [2, 4], "att": [False, True]}
+
+
+def l2(rep, pa, rng, quick):
+    """spec -> code: transitions of MC_AlignObj (TLC simulation, every successor printed) are replayed on real objects put
+    into the transition's SOURCE state through the public constructor / setters; reply and destination state must match."""
+    edges = {}
+
+    def on_print(p):
+        if isinstance(p, dict) and "src" in p:
+            key = json.dumps([p["src"], p["op"], p["args"]], sort_keys=True)
+            if key not in edges:
+                edges[key] = p
+    res = tlc.run("MC_AlignObj", MC_CFG.format(variant="code", computed="FALSE", props="", emit="TRUE"), label="MC_AlignObj simulate (edges)",
+                  workers=8, timeout=900, simulate=f"num={150 if quick else 1500}", depth=12, coverage=False, on_print=on_print)
+    if res.errors or res.violated:
+        raise MachineryError(f"MC_AlignObj simulation: {res.errors} {res.violated}\n{res.out[-1500:]}")
+    rep.add_tlc(res)
+    todo = sorted(edges)
+    rng.shuffle(todo)
+    todo = todo[:2500 if quick else 40000]
+    if len(todo) < 500:
+        raise MachineryError(f"MC_AlignObj simulation printed only {len(todo)} distinct transitions")
+    n, sizes = J0["n"], J0["sizes"]
+    real = [ar.realise_table(pa, {"n": n, "sizes": sizes, "D": J0["Ds"][k], "de": J0["des"][k]}, 1) for k in (0, 1)]
+    c = real[0][0]
+    ds = {1: real[0][1], 2: real[1][1]}
+    anns = list(c.annotators)
+    units = ar.units_by_annotator(c)
+
+    def ntuple(t):
+        slots = [(anns[a], units[a][t[a]] if t[a] < sizes[a] else None) for a in range(n)]
+        rng.shuffle(slots)
+        return slots
+
+    def val(pair):       # carried pair <<S, M>> -> the library's float (C(2,2) = 1, scale 1)
+        return None if pair[0] < 0 else pair[0] * n / pair[1]
+
+    def close(x, y):
+        return x is not None and y is not None and abs(float(x) - y) <= 1e-5 * max(1.0, abs(y))
+    per_op = {}
+    for key in todo:
+        e = edges[key]
+        src, dst, op, args = e["src"], e["dst"], e["op"], e["args"]
+        uas = [pa.UnitaryAlignment(ntuple(t)) for t in src["tuples"]]
+        for ua, v in zip(uas, src["ud"]):
+            if v >= 0:
+                ua.disorder = float(v)
+        objs = {1: pa.Alignment(uas, None, disorder=val(src["tot"][0]))}
+        objs[2] = pa.Alignment(objs[1].unitary_alignments, c, disorder=val(src["tot"][1]))
+        ualist = objs[1].unitary_alignments
+        out, ret = "ok", None
+        try:
+            if op == "compute":
+                ret = objs[args[0]].compute_disorder(ds[args[1]])
+            elif op == "readtot":
+                ret = objs[args[0]].disorder
+            elif op == "readud":
+                ret = ualist[args[0] - 1].disorder
+            elif op == "setud":
+                ualist[args[0] - 1].disorder = float(args[1])
+            elif op == "settuple":
+                ualist[args[0] - 1].n_tuple = ntuple(args[1:])
+            elif op == "ucompute":
+                ret = ualist[args[0] - 1].compute_disorder(ds[args[1]])
+        except ValueError:
+            out = "raise"
+        except Exception as ex:
+            out = f"exception {type(ex).__name__}: {ex!r}"[:200]
+        problems = []
+        if out != dst["out"]:
+            problems.append(f"outcome {out}, spec {dst['out']}")
+        elif out == "ok" and dst["ret"][0] >= 0 and not close(ret, val(dst["ret"])):
+            problems.append(f"returned {ret}, spec {val(dst['ret'])}")
+        for k, (ua, v) in enumerate(zip(objs[2].unitary_alignments, dst["ud"])):
+            try:
+                got = ua.disorder
+            except ValueError:
+                got = None
+            if (v < 0) != (got is None) or (v >= 0 and not close(got, float(v))):
+                problems.append(f"unitary alignment {k + 1} carries {got}, spec {None if v < 0 else v}")
+        for o in (1, 2):                       # read last: .disorder caches
+            want = val(dst["tot"][o - 1])
+            if want is not None:
+                try:
+                    got = objs[o].disorder
+                except ValueError:
+                    got = None
+                if not close(got, want):
+                    problems.append(f"object {o} carries total {got}, spec {want}")
+            elif any(v < 0 for v in dst["ud"]):
+                try:
+                    objs[o].disorder
+                    problems.append(f"object {o}: .disorder answers although a unitary value is missing and no total is cached")
+                except ValueError:
+                    pass
+        per_op[op] = per_op.get(op, 0) + 1
+        rep.case(key="alignobj-edge " + key)
+        if problems:
+            rep.violation("alignobj.replay." + op, {"operation": op, "args": args, "source_state": src, "spec_destination": dst, "problems": problems})
+    rep.traces += len(todo)
+    rep.extra["alignobj_transitions_replayed"] = per_op
+    for op in ("compute", "readtot", "readud", "setud", "settuple", "ucompute"):
+        if not per_op.get(op):
+            raise MachineryError(f"alignobj replay: no {op} transition")
+
+
 def run(rep, pa, rng, quick):
     l1(rep, quick)
+    l2(rep, pa, rng, quick)
     recs = histories(pa, rng, 120 if quick else 1500, 14 if quick else 20)
     B = 400
     ops = {}
